@@ -1188,7 +1188,7 @@ def stream_semis_start(ctx):
                             'sk%d' % k)
         it['every_column'] = True
         items.append(it)
-    items += c01_semis.lines(rng, ctx.size(8, 400), all_contexts=not ctx.quick, all_kinds=not ctx.quick,
+    items += c01_semis.lines(rng, ctx.size(6, 200), all_contexts=not ctx.quick, all_kinds=not ctx.quick,
                              blank_share=ctx.size(0.3, 1.0))
     for it in items:
         it.setdefault('every_column', not ctx.quick)
